@@ -216,6 +216,39 @@ Section JWT.
     end.
 End JWT.
 
+(* The WHOLE request as the Authorize middleware receives it: besides the clock and the
+   credential (the Authorization header) also the HTTP method and every other header field,
+   as (name id, value id) pairs in the order sent.  Well-known names have fixed identifiers
+   (tools/props/c18.py numbers them the same way); everything else is interned per case.
+   handler.Authorize reads neither: [authorize_req] does not look at them, and that this is
+   so for EVERY method and header list is stated in Props.v
+   (gate_independent_of_method_and_headers); Pinned.v has the variant that does look. *)
+Definition m_options : Z := 100001.       (* "OPTIONS" *)
+Definition h_origin : Z := 1.             (* "Origin" *)
+Definition h_acrm : Z := 2.               (* "Access-Control-Request-Method" *)
+
+Record hreq := mkHreq
+  { hq_method : Z; hq_headers : list (Z * Z); hq_now : Z; hq_cred : cred }.
+
+Definition hq_core (q : hreq) : Z * cred := (hq_now q, hq_cred q).
+
+(* Header.Get(name) <> "" : some field of that name with a non-empty value (value id 0 = "") *)
+Definition has_header (name : Z) (q : hreq) : bool :=
+  existsb (fun nv => (fst nv =? name) && negb (snd nv =? 0)) (hq_headers q).
+
+Definition authorize_req (mac : alg -> Z -> Z -> Z) (h : history) (c : jcfg) (q : hreq) : history * jresult :=
+  authorize mac h c (hq_now q) (hq_cred q).
+
+(* one middleware instance, a sequence of whole requests; next to each result the error the
+   unauthorized callback is called with (0: not called) *)
+Fixpoint run_jwt_req (mac : alg -> Z -> Z -> Z) (h : history) (c : jcfg) (reqs : list hreq) : list (jresult * Z) :=
+  match reqs with
+  | [] => []
+  | q :: reqs' =>
+    let '(h', r) := authorize_req mac h c q in
+    (r, parse_err mac h c (hq_now q) (hq_cred q)) :: run_jwt_req mac h' c reqs'
+  end.
+
 (* ------------------------------------------------------------------------- *)
 (* PKCS#5/7 padding and ECB (core/codec/aesecb.go), block size 16             *)
 
